@@ -35,6 +35,12 @@ def world(seed):
             a, b = r.choice(nodes)[0], r.choice(nodes)[0]
             edges.append((f"g{gi}:e{j}", a, b, r.choice([0.25, 0.5, 1.0, -0.5, 0.3333333]), r.choice(["supports", "associates", "contradicts", "unknown"])))
         graphs[f"g:{gi}"] = {"nodes": nodes, "edges": edges}
+    if seed % 3 == 0:
+        # more than five touched nodes whose ids contain case-only twins: the planner caps its topic labels at five,
+        # and which labels survive may not depend on the hash seed
+        # (ids that sort before every other graph's ids, so the cap of five falls inside a twin pair)
+        ids = ["a:a", "a:b", "a:C", "a:c", "a:D", "a:d", "a:E", "a:e", "a:F", "a:f"]
+        graphs["g:twins"] = {"nodes": [(i, "apple", []) for i in ids], "edges": [("a:e1", "a:a", "a:b", 0.5, "supports")]}
     eps = []
     words = ["apple", "banana", "cherry", "pie", "date", "elder", "fig", "weather"]
     for i in range(r.randrange(0, 7)):
@@ -59,6 +65,9 @@ def knobs(seed):
     if r.random() < 0.5:          # stage caches on (process-global): warm re-runs hit them
         over["t1"]["cache"] = {"enabled": True}
         over["t2"]["cache"] = {"enabled": True}
+    if r.random() < 0.5:
+        # budget-driven yields (deterministic: the stage counter reaches its budget) - their records are canonical too
+        over["scheduler"] = {"budgets": {r.choice(["t1_pops", "t1_iters", "t2_k"]): r.choice([1, 2])}}
     if r.random() < 0.4:
         over["perf"] = {"enabled": True, "parallel": {"enabled": True, "t1": True, "t2": True, "max_workers": r.choice([2, 3])}}
         if r.random() < 0.5:
@@ -67,12 +76,40 @@ def knobs(seed):
     return over
 
 
-def run_once(case, outdir, clock, tag):
+LAST_INDEX_ID = [None]
+
+
+def other_world(eps):
+    """the same memory ids and count with different texts (and therefore vectors)"""
+    from harness import engine as E
+    out = []
+    for e in eps:
+        words = list(reversed((e.get("text") or "x").split())) + ["weather"]
+        out.append(E.mk_episode(e["id"], e["owner"], " ".join(words), ts=e["ts"], importance=(e.get("aux") or {}).get("importance", 0.5),
+                                cluster=(e.get("aux") or {}).get("cluster")))
+    return out
+
+
+def run_once(case, outdir, clock, tag, eps_override=None):
     from harness import engine as E
     from harness.turnrun import Session
     graphs, eps, gel = world(case["world"])
+    if eps_override is not None:
+        eps = eps_override(eps)
     d = os.path.join(outdir, tag)
     s = Session(d, base_cfg=knobs(case["world"]), graphs=graphs, episodes=eps)
+    if tag == "warm2" and LAST_INDEX_ID[0] is not None:
+        # adversarial but legal allocation: the new world's memory index lands on the address of the index that the
+        # previous (dropped) world used - CPython reuses freed addresses
+        from clematis.memory.index import InMemoryIndex
+        cands = [InMemoryIndex() for _ in range(256)]
+        pick = next((c for c in cands if id(c) == LAST_INDEX_ID[0]), None)
+        if pick is not None:
+            for e in eps:
+                pick.add(dict(e))
+            s.state["mem_index"] = pick
+        del cands
+    LAST_INDEX_ID[0] = id(s.state["mem_index"])
     s.log_dir = os.path.join(d, "logs")
     import copy
     s.state["graph"] = copy.deepcopy(gel)
@@ -180,6 +217,12 @@ def main():
     out = {}
     for tag in ("cold", "warm"):
         out[tag] = run_once(case, outdir, clock, tag)
+    # a warm process that has served ANOTHER world before (same memory size, other contents; its engine state is
+    # dropped and collected first, so a new index may reuse its address): the replay must not see any of it
+    import gc
+    run_once(case, outdir, clock, "other", eps_override=other_world)
+    gc.collect()
+    out["warm2"] = run_once(case, outdir, clock, "warm2")
     shutil.rmtree(outdir, ignore_errors=True)
     print("C01RESULT " + json.dumps(out))
 
